@@ -832,6 +832,46 @@ func (c *Ctx) evalCall(env *CEnv, e *ast.CallExpr) CVal {
 			l := c.ghostComp(env, "lim", r, BV64)
 			n := fmt.Sprintf("(bvsub %s %s)", l, o)
 			return CVal{V: SliceV{sid, o, n, n, tUint8}, T: types.NewSlice(tUint8)}
+		case "same":
+			// same(a, b): representation identity (bit-identical floats incl. NaN, identical string/slice headers,
+			// field-wise for structs) - "the location was not written", as opposed to Go's == on values
+			a := c.evalExpr(env, e.Args[0])
+			b := c.evalExpr(env, e.Args[1])
+			var eq func(x, y Val) string
+			eq = func(x, y Val) string {
+				switch xv := x.(type) {
+				case Sc:
+					if yv, ok := y.(Sc); ok {
+						return fmt.Sprintf("(= %s %s)", xv.T, yv.T)
+					}
+				case StrV:
+					if yv, ok := y.(StrV); ok {
+						return fmt.Sprintf("(and (= %s %s) (= %s %s) (= %s %s))", xv.Data, yv.Data, xv.Off, yv.Off, xv.Len, yv.Len)
+					}
+				case SliceV:
+					if yv, ok := y.(SliceV); ok {
+						return fmt.Sprintf("(and (= %s %s) (= %s %s) (= %s %s) (= %s %s))", xv.Arr, yv.Arr, xv.Off, yv.Off, xv.Len, yv.Len, xv.Cap, yv.Cap)
+					}
+				case IfaceV:
+					if yv, ok := y.(IfaceV); ok {
+						return fmt.Sprintf("(and (= %s %s) (= %s %s))", xv.Tag, yv.Tag, xv.Ref, yv.Ref)
+					}
+				case StructV:
+					if yv, ok := y.(StructV); ok && len(xv.F) == len(yv.F) {
+						var ps []string
+						for i := range xv.F {
+							ps = append(ps, eq(xv.F[i], yv.F[i]))
+						}
+						return and(ps...)
+					}
+				}
+				cerr("same(): unsupported or mismatched operands %T / %T", x, y)
+				return ""
+			}
+			if a.V == nil || b.V == nil {
+				cerr("same(): constant operand")
+			}
+			return CVal{V: Sc{eq(a.V, b.V), "Bool"}, T: tBool}
 		case "fresh":
 			v := c.evalExpr(env, e.Args[0])
 			if env.topBefore != "" && c.noName == 0 {
